@@ -198,8 +198,20 @@ func (f Field) Equals(other Field) bool {
 	switch f.Type {
 	case BinaryType, ByteStringType:
 		return bytes.Equal(f.Interface.([]byte), other.Interface.([]byte))
-	case ArrayMarshalerType, ObjectMarshalerType, ErrorType, ReflectType:
+	case ArrayMarshalerType, ObjectMarshalerType, InlineMarshalerType, ErrorType, ReflectType, StringerType:
+		// The payload may be of an uncomparable type (a slice-based Stringer
+		// or marshaler), for which == panics.
 		return reflect.DeepEqual(f.Interface, other.Interface)
+	case Complex128Type:
+		// Compare bit patterns, like the float fields do, so that a field
+		// holding NaN equals itself.
+		a, b := f.Interface.(complex128), other.Interface.(complex128)
+		return math.Float64bits(real(a)) == math.Float64bits(real(b)) &&
+			math.Float64bits(imag(a)) == math.Float64bits(imag(b))
+	case Complex64Type:
+		a, b := f.Interface.(complex64), other.Interface.(complex64)
+		return math.Float32bits(real(a)) == math.Float32bits(real(b)) &&
+			math.Float32bits(imag(a)) == math.Float32bits(imag(b))
 	default:
 		return f == other
 	}
